@@ -390,6 +390,10 @@ class SparselyBin(Factory, Container):
         np.subtract(q, self.origin, q)
         np.divide(q, self.binWidth, q)
         np.floor(q, q)
+        # saturate like bin(): an index beyond the int64 range belongs to the end bins (the cast is undefined there)
+        with np.errstate(invalid="ignore"):
+            np.bitwise_or(neginfs, q <= LONG_MINUSINF, neginfs)
+            np.bitwise_or(posinfs, q >= LONG_PLUSINF, posinfs)
         q = np.array(q, dtype=np.int64)
         q[neginfs] = LONG_MINUSINF
         q[posinfs] = LONG_PLUSINF
